@@ -253,6 +253,10 @@ class ChangeRecorder:
         for file in self._source_files.values():
             file.virtual_write()
 
+    def clear_replacements(self):
+        for file in self._source_files.values():
+            file.replacements = []
+
     def dump(self):  # pragma: no cover
         for file in self._source_files.values():
             print("file:", file.filename)
